@@ -362,6 +362,8 @@ func (w *MyWorld) ReviveInstance(inst string) {
 
 // Block / Unblock traffic from one mysync instance to one MySQL host (hang).
 func (w *MyWorld) Block(inst, host string)   { w.mu.Lock(); w.blocked[inst+">"+host] = true; w.mu.Unlock() }
+// IsBlocked (caller holds the world lock).
+func (w *MyWorld) IsBlocked(inst, host string) bool { return w.blocked[inst+">"+host] }
 func (w *MyWorld) Unblock(inst, host string) { w.mu.Lock(); delete(w.blocked, inst+">"+host); w.mu.Unlock() }
 
 // ---- world actions (environment) ----------------------------------------------
